@@ -1537,3 +1537,22 @@ func specListed(ids []*ast.Identifier, name string) bool {
 //@   opt stable github.com/open2b/scriggo/ast.Import
 //@   callassert[C16] em.fnStore.makeAvailableScriggoFn 0 node.For == nil || importName != "" || exists(0, len(node.For), func(k int) bool { return node.For[k].Name == name })
 //@   callassert[C16] em.varStore.bindScriggoPackageVar 0 node.For == nil || importName != "" || exists(0, len(node.For), func(k int) bool { return node.For[k].Name == name })
+
+// ---------------------------------------------------------------------------
+// C04, untyped nil in the type checker: the type info of the predeclared nil
+// has no type (Type == nil). The condition of a `for` may be nil in the source,
+// so the checker must not call a method of ti.Type before it has excluded the
+// nil (as the `if` case does). Assumed of checkExpr (the
+// type checker's invariant): it returns a type info, and one without a type
+// only for the untyped nil.
+// ---------------------------------------------------------------------------
+
+//@ func (*typechecker).checkExpr
+//@   props X00
+//@   trusted
+//@   ensures result != nil && (result.Type != nil || result.Nil())
+
+//@ clause (*typechecker).checkNodes/case *ast.For
+//@   props X00 C04
+//@   panics allowed
+//@   claim[C04] nilifc[ti.Type
